@@ -5,6 +5,7 @@ Static sufficient conditions over every .py under synapgrad/ (AST, re-read on ev
                                     generators that manual_seed seeds; nothing re-seeds them; no dynamic code hides a source
   static.no_set_iteration           (O2) on numeric paths no set/frozenset is iterated, popped or allowed to escape, no id()/hash(), no key=id;
                                     Tensor.backward takes its order from lists (the visited set is membership-only)
+  static.no_uninitialised_output    (O4) a ufunc called with where= gets an out= buffer the function initialised itself (otherwise masked positions are heap garbage)
   static.manual_seed_seeds_both     (O3) manual_seed(seed) unconditionally calls np.random.seed(seed) and random.seed(seed)
 Run time, bounded (vf/rtc/repro.py): manual_seed.bit_identical_rerun (same process, fresh interpreters under several PYTHONHASHSEED),
   fixed_program.bit_identical_repeat (3 repetitions with garbage in between; also across the fresh interpreters);
@@ -53,6 +54,15 @@ def static_part(run):
     run.extra["static_random_call_sites"] = sites
     if len([s for s in sites if "np.random" in s]) < 5:
         run.error("static: fewer than 5 np.random call sites recognised (resolver out of date?)")
+    # ---- O4: no masked ufunc call leaves part of its result uninitialised
+    n_masked_ok = 0
+    for rel in files:
+        bad = S.masked_ufunc_outputs(rel)
+        for b in bad:
+            run.violation("static.no_uninitialised_output", "%s line %d: %s(..., where=...) with out=%s: the positions the mask excludes are never written, the result there is whatever "
+                          "the allocator left behind" % (b["where"], b["line"], b["call"], b["out"]), key={"where": b["where"], "call": b["call"]}, replay={"static": b, "verifier_output": b}, reproduced=False)
+        n_masked_ok += 0 if bad else 1
+    run.add_counts(obligations=len(files), discharged=n_masked_ok, backend="static-ast")
     # ---- O3
     ms = S.manual_seed_check()
     run.add_counts(obligations=1, discharged=0 if ms["missing"] else 1, backend="static-ast")
